@@ -1,6 +1,7 @@
 import Zc.Model.Cache
 import Zc.Model.Reentrant
 import Zc.Model.BrowserCb
+import Zc.Model.CacheListener
 import Zc.Model.BrowserReentrant
 /-! Driver command `crun` shared by C05, C06 and C04: one line = one whole history.
 
@@ -9,6 +10,7 @@ crun P <nNames> name* <nRecs> rec* <nTriples> (name type class)* OPS <nOps> op*
 op := D now <n> rec* <nreact> (code lid kind target [t qname qtype qclass])*
                                                             -- response datagram + scripted reactions; code = 10*depth + phase;
                                                             -- kind 1 = add listener, 0 = remove, 2 = add WITH a question (clock reading t)
+    | W now payload <n> rec* <nreact> (…)*                  -- the same datagram as bytes through the listener (equal payload numbers = equal bytes)
     | X now                                                 -- periodic purge (_async_cache_cleanup)
     | LA id | LR id                                         -- add / remove a recording listener
     | BA id now <n> type*                                   -- new browser (purge, then initial replay, both at `now`)
@@ -34,6 +36,8 @@ structure Probes where
   names : List String
   recs : List Rec
   triples : List (String × Nat × Nat)
+  /-- what the wall clock shows when the readers are evaluated: the instant of the op (set by `step`) -/
+  now : Ms := 0
 
 def readersStr (p : Probes) (c : Cache) : String :=
   let l := asciiLower
@@ -47,7 +51,10 @@ def readersStr (p : Probes) (c : Cache) : String :=
   let ae := sep ";" (p.names.map (fun k => recsStr (c.asyncEntriesWithName l k)))
   let as := sep ";" (p.names.map (fun k => recsStr (c.asyncEntriesWithServer l k)))
   let aa := sep ";" (p.triples.map (fun t => recsStr (c.asyncAllByDetails l t.1 t.2.1 t.2.2)))
-  s!"N={n} E={e} S={s} G={g} U={u} D={d} A={a} AE={ae} AS={as} AA={aa}"
+  let ce := sep ";" (p.recs.filterMap (fun r => match r.rdata with
+    | .ptr alias => some (optRecStr (c.currentEntryWithNameAndAlias l r.name alias p.now))
+    | _ => none))
+  s!"N={n} E={e} S={s} G={g} U={u} D={d} A={a} AE={ae} AS={as} AA={aa} CE={ce}"
 
 structure React where
   /-- 10 * depth + phase -/
@@ -57,6 +64,7 @@ structure React where
 
 inductive Op where
   | dg (now : Ms) (recs : List Rec) (reacts : List React)
+  | wire (now : Ms) (payload : Nat) (recs : List Rec) (reacts : List React)
   | purge (now : Ms)
   | lAdd (id : Nat) | lRem (id : Nat)
   | bAdd (id : Nat) (now : Ms) (types : List String)
@@ -77,6 +85,7 @@ def parseOp : Tok Op := do
   let k ← Tok.next
   match k with
   | "D" => do let now ← Tok.int; let recs ← Tok.list Rec.parse; let reacts ← Tok.list parseReact; pure (.dg now recs reacts)
+  | "W" => do let now ← Tok.int; let pid ← Tok.nat; let recs ← Tok.list Rec.parse; let reacts ← Tok.list parseReact; pure (.wire now pid recs reacts)
   | "X" => do let now ← Tok.int; pure (.purge now)
   | "LA" => do let i ← Tok.nat; pure (.lAdd i)
   | "LR" => do let i ← Tok.nat; pure (.lRem i)
@@ -106,6 +115,9 @@ structure Host where
   /-- `RecordManager.listeners` restricted to the harness's recording listeners (a set) -/
   listeners : List Nat := []
   browsers : List (Nat × Browser) := []
+  /-- the listener's `self.data` / `self.last_time` (W ops) -/
+  wdata : Option Nat := none
+  wlast : Ms := 0
   /-- handler plans of the browsers' service listeners that have not run yet -/
   plans : List Plan := []
 
@@ -120,10 +132,10 @@ def idsStr (l : List Nat) : String := sep "," ((l.mergeSort (fun a b => a ≤ b)
 
 def changeStr : Change → String | .added => "A" | .removed => "R" | .updated => "U"
 
-/-- callbacks of one batch: stable-sorted by (browser id, lower-cased name) -/
+/-- callbacks of one batch: stable-sorted by (browser id, lower-cased name, type) -/
 def cbStr (cbs : List (Nat × Callback)) : String :=
-  let keyed := cbs.map (fun (p : Nat × Callback) => ((p.1, hexOfStr (asciiLower p.2.name)), s!"{p.1}:{changeStr p.2.change}:{hexOfStr p.2.type}:{hexOfStr p.2.name}"))
-  let sorted := keyed.mergeSort (fun a b => a.1.1 < b.1.1 || (a.1.1 == b.1.1 && a.1.2 ≤ b.1.2))
+  let keyed := cbs.map (fun (p : Nat × Callback) => ((p.1, hexOfStr (asciiLower p.2.name), hexOfStr p.2.type), s!"{p.1}:{changeStr p.2.change}:{hexOfStr p.2.type}:{hexOfStr p.2.name}"))
+  let sorted := keyed.mergeSort (fun a b => a.1.1 < b.1.1 || (a.1.1 == b.1.1 && (a.1.2.1 < b.1.2.1 || (a.1.2.1 == b.1.2.1 && a.1.2.2 ≤ b.1.2.2))))
   sep "," (sorted.map (fun x => x.2))
 
 def pairsStr (us : List (Rec × Option Rec)) : String :=
@@ -168,7 +180,8 @@ def stepPlans (p : Probes) (h : Host) (op : Op) : Option (Host × String) :=
     else
       let c1 := a.cache
       let us := livePairs (Cache.ops l) c1 a.updates
-      let S1 := updateAllR l possibleTypes 0 now us { hostR h with cache := c1 }
+      -- the harness's clock ticks per reading during this op too: the arrival time was reading 0
+      let S1 := updateAllR l possibleTypes 0 now us { hostR h with cache := c1, tick := some 1 }
       match ingestFinish (Cache.ops l) S1.cache a with
       | .error e => some (h, s!"D err={errName e}")
       | .ok f =>
@@ -206,6 +219,7 @@ def stepPlans (p : Probes) (h : Host) (op : Op) : Option (Host × String) :=
 def stepPlain (p : Probes) (h : Host) (op : Op) : Host × String :=
   let l := asciiLower
   match op with
+  | .wire .. => (h, "bad-op")
   | .dg now recs reacts =>
     -- the harness's listeners hash to their id, so the set iterates in ascending id order
     let d := deliverR l (fun ls => ls.mergeSort (fun a b => a ≤ b)) (reactFn reacts) 8 h.cache h.listeners now recs
@@ -265,11 +279,28 @@ def stepPlain (p : Probes) (h : Host) (op : Op) : Host × String :=
   | .bRem i => ({ h with browsers := h.browsers.filter (fun ib => ib.1 != i) }, "BR")
   | .plan pl => ({ h with plans := h.plans ++ [pl] }, "BP")
 
-def step (p : Probes) (h : Host) (op : Op) : Host × String :=
+def stepCore (p : Probes) (h : Host) (op : Op) : Host × String :=
   if h.plans.isEmpty then stepPlain p h op
   else match stepPlans p h op with
     | some r => r
     | none => stepPlain p h op
+
+/-- the instant the wall clock shows after the op -/
+def opTime : Op → Option Ms
+  | .dg now .. => some now | .wire now .. => some now | .purge now => some now | .bAdd _ now _ => some now | _ => none
+
+/-- one op.  A `W` datagram first passes the listener's duplicate guard (`Zc.WireState.suppresses`, the generated test): dropped, or
+remembered and handed to the record manager exactly as a `D` datagram with the arrival time -/
+def step (p : Probes) (h : Host) (op : Op) : Host × String :=
+  let p := { p with now := (opTime op).getD p.now }
+  match op with
+  | .wire now pid recs reacts =>
+    let ws : WireState := { cache := h.cache, data := h.wdata, lastTime := h.wlast }
+    if ws.suppresses pid now then (h, s!"W dup {readersStr p h.cache}")
+    else
+      let (h', s) := stepCore p h (.dg now recs reacts)
+      ({ h' with wdata := some pid, wlast := now }, "W" ++ String.ofList (s.toList.drop 1))
+  | op => stepCore p h op
 
 def run (p : Probes) (ops : List Op) : String :=
   let (_, outs) := ops.foldl (fun (acc : Host × List String) op => let (h', s) := step p acc.1 op; (h', s :: acc.2)) ({}, [])
